@@ -134,6 +134,7 @@ def _job(args):
 
 def run(ctx, replay=None):
     lib()
+    ctx.notes["reflectors_certified_by_TLC"] = E.check_against_tlc(ctx)
     thorough = ctx.tier == "thorough"
     nmax = 5 if thorough else 3
     ctx.assumptions += [
